@@ -8,6 +8,15 @@ LV_UNARY, LV_CMP, LV_EQ, LV_NOT, LV_AND, LV_OR = 10, 3, 2, 1, 0, -1
 NSTR = 3
 
 
+def const_value(t):
+    """value of the small non-negative constant trees built by Gen.const_small (no overflow, no division by zero)"""
+    if t[0] == "lit":
+        return t[1]
+    a, b = const_value(t[1]), const_value(t[2])
+    return {"shr": lambda: a >> b, "shl": lambda: a << b, "div": lambda: a // b, "mod": lambda: a % b, "band": lambda: a & b, "bxor": lambda: a ^ b,
+            "bor": lambda: a | b, "sub": lambda: a - b, "mul": lambda: a * b, "add": lambda: a + b}[t[0]]()
+
+
 class Gen:
     def __init__(self, rng, nrules_before, next_n):
         self.r = rng
@@ -21,9 +30,27 @@ class Gen:
     def small(self):
         return ("lit", self.r.choice([0, 1, 2, 3, 4, 5, 7, 8, 16, 63, 64, 255, 256, 65535]) if self.r.chance(4, 5) else self.r.below(1 << self.r.choice([8, 31, 40, 62])))
 
+    def const_small(self):
+        """a constant expression (folded by the compiler) whose value is a small offset / index / shift amount"""
+        r = self.r
+        a, b = r.choice([(64, 2), (40, 1), (9, 3), (255, 5), (12, 2), (33, 4), (7, 1), (100, 6)])
+        op = r.choice(["shr", "shl", "div", "mod", "band", "bxor", "bor", "sub", "mul", "add"])
+        if op == "shl":
+            a, b = r.choice([(1, 3), (3, 2), (5, 1), (2, 4)])
+        elif op == "mul":
+            a, b = r.choice([(3, 4), (5, 5), (2, 9)])
+        elif op == "add":
+            a, b = r.choice([(3, 4), (15, 5), (0, 9)])
+        t = (op, ("lit", a), ("lit", b))
+        if r.chance(1, 4):
+            t = (r.choice(["shr", "band", "mod"]), t, ("lit", r.choice([1, 3, 7])))
+        return t
+
     def iexpr(self, d):
         r = self.r
-        k = r.below(16)
+        k = r.below(17)
+        if k == 16:
+            return self.const_small()
         if d <= 0 or k < 4:
             c = r.below(8)
             if c < 3:
@@ -55,7 +82,7 @@ class Gen:
         r = self.r
         c = r.below(5)
         if c == 0:
-            return ("lit", r.below(40))
+            return ("lit", r.below(40)) if r.chance(1, 2) else self.const_small()
         if c == 1:
             return ("sub", ("fs",), ("lit", r.below(6)))
         if c == 2:
@@ -107,6 +134,10 @@ class Gen:
                 return ("curin", lo, hi)
             return ("in", r.below(NSTR), lo, hi)
         if k < 11:
+            if r.chance(1, 5):
+                # a folded constant expression compared with its value (and with a neighbour of it)
+                ce = self.const_small()
+                return ("cmp", r.choice(["eq", "eq", "ne", "le", "ge"]), ce, ("lit", max(0, const_value(ce) + r.choice([0, 0, 0, 1, -1]))))
             return ("cmp", r.choice(list(CMP)), self.iexpr(d - 1), self.iexpr(d - 1))
         if k < 14:
             return (r.choice(["and", "or"]), self.bexpr(d - 1), self.bexpr(d - 1))
